@@ -161,6 +161,13 @@ class CircuitGraphBranch(GraphBranch[OperationGraphNode]):
 
         # Node has relation and is present in graph, append to this (reference) node in graph
         relation_node: Optional[OperationGraphNode] = graph.get_corresponding_node(operation=node.operation.relation_link.reference_node)
+        if isinstance(node.operation.relation_link, MultiRelationLink):
+            # An operation that waits for the latest of a group of operations is listed after all of them:
+            # append to the group member that is deepest in relation steps (not necessarily the latest in time)
+            group_operation_ids = set(id(_operation) for _operation in node.operation.relation_link._reference_nodes)
+            for graph_node in graph.get_node_iterator():
+                if id(graph_node.operation) in group_operation_ids:
+                    relation_node = graph_node
         relation_node_present: bool = relation_node is not None
         if has_relation and relation_node_present:
             graph.append_pointer_to(relation_node, node)
